@@ -848,7 +848,16 @@ func ParseContractFile(path, pkgPath, text string) (*ContractFile, error) {
 			ob := strings.Index(r, "{")
 			cb := strings.LastIndex(r, "}")
 			if ob < 0 || cb < ob {
-				return nil, fail(l, fmt.Errorf("pure func needs { body }"))
+				// no body: an uninterpreted (heap independent) specification function
+				pf := &PureFunc{Pkg: pkgPath}
+				if err := parsePureHead(strings.TrimSpace(r), pf); err != nil {
+					return nil, fail(l, err)
+				}
+				if pf.Ret == nil {
+					return nil, fail(l, fmt.Errorf("uninterpreted spec function needs a result type"))
+				}
+				cf.Pures = append(cf.Pures, pf)
+				continue
 			}
 			head, body := strings.TrimSpace(r[:ob]), strings.TrimSpace(r[ob+1:cb])
 			body = strings.TrimPrefix(body, "return ")
